@@ -306,7 +306,7 @@ class MDAChain(BaseMDA):
         input_names: Sequence[str] = (),
         output_names: Sequence[str] = (),
     ) -> None:
-        if self.settings.chain_linearize:
+        if self.settings.chain_linearize and not self.__has_states_out_of_inner_mdas():
             self.mdo_chain.add_differentiated_inputs(input_names)
             self.mdo_chain.add_differentiated_outputs(output_names)
             # the Jacobian of the MDA chain is the Jacobian of the MDO chain
@@ -314,6 +314,24 @@ class MDAChain(BaseMDA):
             self.jac = self.mdo_chain.jac
         else:
             super()._compute_jacobian(input_names, output_names)
+
+    def __has_states_out_of_inner_mdas(self) -> bool:
+        """Whether a discipline with state variables is out of the inner MDAs.
+
+        Such a discipline provides the partial derivatives of its outputs
+        at fixed state variables
+        while the chain rule considers the Jacobians of the chained disciplines
+        as total ones;
+        only the coupled adjoint of an MDA takes its state equations into account.
+        """
+        disciplines_of_inner_mdas = [
+            discipline for mda in self.inner_mdas for discipline in mda.disciplines
+        ]
+        return any(
+            discipline.io.residual_to_state_variable
+            and discipline not in disciplines_of_inner_mdas
+            for discipline in self.disciplines
+        )
 
     def add_differentiated_inputs(  # noqa:D102
         self,
